@@ -28,9 +28,11 @@ ASSUMPTIONS = ['2-D arrays with their own documented meaning are exempt (h2e, e2
                'if every form raises the case is not judged here (another property owns that defect)']
 MIN_EVALS = {'forms': {'quick': 4500, 'thorough': 55000}, 'length': {'quick': 7000, 'thorough': 90000},
              'units': {'quick': 250, 'thorough': 3000}, 'options': {'quick': 1300, 'thorough': 16000},
-             'triple': {'quick': 30, 'thorough': 400}}
+             'triple': {'quick': 30, 'thorough': 400}, 'scalars': {'quick': 600, 'thorough': 12000}}
 ENTRIES = cat.BASE + cat.CLASSES
 BAD_ORDERS = ['zxy', 'XYZ', '', 'yzx', 'zyz']
+# the container forms again, as objects a caller may hold: frozen, non-contiguous and reversed-stride arrays, lists of NumPy scalars
+OBJFORMS = ['array:readonly', 'array:strided', 'array:negstride', 'list:npscalars', 'row:readonly', 'col:strided', 'row:fortran', 'col:readonly']
 BAD_UNITS = ['degrees', 'grad', '', 'Deg', 'radians']
 
 
@@ -125,9 +127,10 @@ def run_forms(ctx, p):
     a0, k0 = setpos(args, kwargs, pos, np.array(ref_v))
     base_res = attempt(e, a0, k0, recv)
     forms = gen.FORMS if (is_base(e) and 'forms3' not in e['tags']) else ['list', 'tuple', 'array']
+    forms = list(forms) + [x for x in p.get('objforms', []) if (is_base(e) and 'forms3' not in e['tags']) or not x.startswith(('row', 'col'))]
     outcomes = {}
     for form in forms:
-        given = gen.as_form(v, form)
+        given = gen.layout(gen.as_form(v, form.split(':')[0]), form.split(':')[1]) if ':' in form else gen.as_form(v, form)
         a1, k1 = setpos(args, kwargs, pos, given)
         outcomes[form] = attempt(e, a1, k1, recv_of(p))
         if form == 'array' and outcomes[form][0] == 'ok' and 'random' not in e['tags']:
@@ -199,6 +202,17 @@ def run_triple(ctx, p):
                   lambda: '%s with integer values: packed form gives dtype kinds %s, separate scalars give %s' % (e['name'], kinds(pk[1]), kinds(sc_[1])))
     ctx.judge('triple', same(packed[1], scal[1]), dict(sig, kind='call_forms_differ'),
               lambda: '%s(%s): packed vector gives %s, separate scalars give %s' % (e['name'], v, core.short(getattr(packed[1], 'data', packed[1]), 300), core.short(getattr(scal[1], 'data', scal[1]), 300)))
+    # one of the separate scalars as a single-precision NumPy number (a value read from a float32 array): the number is the same,
+    # so is the result -- to double precision, whatever the element type the first argument arrived in
+    v32 = np.array(v)
+    v32[0] = float(np.float32(v[0]))
+    pk32 = attempt(e, [v32.tolist()] + list(args[1:]), kwargs, None)
+    sc32 = attempt(e, [np.float32(v32[0])] + [float(x) for x in v32[1:]] + list(args[1:]), kwargs, None)
+    if pk32[0] == 'ok':
+        ok32 = sc32[0] == 'ok' and close(sc32[1], pk32[1], rtol=1e-12, atol=1e-12 * max(1.0, float(np.max(np.abs(v32)))))
+        ctx.judge('triple', ok32, dict(sig, kind='single_precision_scalar_degrades_result'),
+                  lambda: '%s(np.float32(%r), %s): %s; with the same number as a Python float: %s' % (
+                      e['name'], float(v32[0]), [float(x) for x in v32[1:]], core.short(getattr(sc32[1], 'data', sc32[1]), 300), core.short(getattr(pk32[1], 'data', pk32[1]), 300)))
     ctx.cell('triple', e['name'])
     ctx.nontrivial('triple', e['name'], [float('%.9g' % x) for x in v])
     # too few separate scalars: like a vector that is too short -- an exception, or a call form with its own documented meaning
@@ -292,15 +306,49 @@ def run_options(ctx, p):
     e = entry_of(p)
     kw = dict(p['kwargs'])
     kw[p['key']] = p['value']
-    o = attempt(e, p['args'], kw, recv_of(p))
+    args_ = list(p['args'])
     sig = dict(api=e['name'], key=p['which'])
+    if p.get('zero'):        # the other arguments at their degenerate values (zero axis / zero angle): the option is still checked
+        args_ = [np.zeros_like(np.asarray(a, dtype=np.float64)) if isinstance(a, (np.ndarray, list)) else a for a in args_]
+        sig['zero_vector'] = True
+    o = attempt(e, args_, kw, recv_of(p))
     ctx.judge('options', o[0] == 'exc', dict(sig, kind='unknown_option_accepted', value=p['value']),
               lambda: '%s accepted %s=%r and returned %s' % (e['name'], p['key'], p['value'], core.short(getattr(o[1], 'data', o[1]), 200)))
     ctx.cell('options', e['name'], p['which'])
     ctx.nontrivial('options', e['name'], p['key'], p['value'])
 
 
-RUNNERS = {'forms': run_forms, 'length': run_length, 'triple': run_triple, 'units': run_units, 'options': run_options}
+def run_scalars(ctx, p):
+    """integer and float element types, for the scalar (angle / distance) arguments: a whole number given as Python int,
+    Python float, NumPy float64 or NumPy int64 is the same number"""
+    e = entry_of(p)
+    args, kwargs, pos = p['args'], p['kwargs'], p['pos']
+    v = int(p['value'])
+    given = {'float': float(v), 'int': v, 'np.float64': np.float64(v), 'np.int64': np.int64(v)}
+    base_res = attempt(e, *setpos(args, kwargs, pos, float(v)), recv_of(p))
+    if 'random' in e['tags']:
+        return
+    for form, g in given.items():
+        if form == 'float':
+            continue
+        o = attempt(e, *setpos(args, kwargs, pos, g), recv_of(p))
+        sig = dict(api=e['name'], pos=str(pos), form=form)
+        if o[0] != base_res[0]:
+            ctx.bad('scalars', dict(sig, kind='one_form_raises' if o[0] == 'exc' else 'only_this_form_accepted',
+                                    exc=type(o[1]).__name__ if o[0] == 'exc' else type(base_res[1]).__name__),
+                    '%s: scalar argument %s = %d as %s -> %s, as float -> %s' % (e['name'], pos, v, form, core.short(o[1], 200), core.short(base_res[1], 200)))
+            continue
+        if o[0] == 'exc':
+            ctx.ood('scalars')
+            continue
+        ctx.judge('scalars', same(o[1], base_res[1]), dict(sig, kind='result_differs'),
+                  lambda: '%s: scalar argument %s = %d as %s gives %s, as float gives %s' % (
+                      e['name'], pos, v, form, core.short(o[1].data if isinstance(getattr(o[1], "data", None), list) else o[1], 300), core.short(getattr(base_res[1], 'data', base_res[1]), 300)))
+        ctx.cell('scalars', e['name'], str(pos), form)
+        ctx.nontrivial('scalars', e['name'], str(pos), form, v)
+
+
+RUNNERS = {'forms': run_forms, 'length': run_length, 'triple': run_triple, 'units': run_units, 'options': run_options, 'scalars': run_scalars}
 
 
 def REACH():
@@ -326,7 +374,7 @@ def run(ctx):
             args, kwargs, recv = build_args(rng, e)
             base = dict(entry=ei, args=args, kwargs=kwargs, recv=recv_desc(recv))
             for ps in pos + kpos:
-                drive(RUNNERS, ctx, 'forms', dict(base, pos=ps, ints=False))
+                drive(RUNNERS, ctx, 'forms', dict(base, pos=ps, ints=False, objforms=[OBJFORMS[int(k_)] for k_ in rng.choice(len(OBJFORMS), 3, replace=False)]))
                 if 's01' not in e['tags'] and e['args'] and (not isinstance(ps, int) or e['args'][ps][0] == 'V'):
                     drive(RUNNERS, ctx, 'forms', dict(base, pos=ps, ints=True))
                 spec = e['args'][ps] if isinstance(ps, int) else e['kwargs'][ps]
@@ -337,6 +385,9 @@ def run(ctx):
                             continue
                         for form in ((['array'] if 'listseq' in e['tags'] else ['list', 'array']) if n > 0 else ['list']):
                             drive(RUNNERS, ctx, 'length', dict(base, pos=ps, n=n, form=form))
+            for ps in [i_ for i_, s_ in enumerate(e['args']) if s_[0] in ('A', 'S', 'SPOS')]:
+                v_ = int(rng.integers(1, 7)) * (1 if e['args'][ps][0] == 'SPOS' else int(gen.sign(rng)))
+                drive(RUNNERS, ctx, 'scalars', dict(base, pos=ps, value=v_))
             if any(t.startswith('triple') for t in e['tags']):
                 drive(RUNNERS, ctx, 'triple', base)
             if any(t.startswith('unit_') for t in e['tags']):
@@ -345,6 +396,8 @@ def run(ctx):
                     uk = unit_kw(e)
                     for bu in BAD_UNITS:
                         drive(RUNNERS, ctx, 'options', dict(base, key=uk, value=bu, which='unit'))
+                    if any(isinstance(a_, np.ndarray) for a_ in args):
+                        drive(RUNNERS, ctx, 'options', dict(base, key=uk, value=BAD_UNITS[int(rng.integers(len(BAD_UNITS)))], which='unit', zero=True))
             if 'order' in e['tags']:
                 for bo in BAD_ORDERS:
                     drive(RUNNERS, ctx, 'options', dict(base, key='order', value=bo, which='order'))
